@@ -7,6 +7,7 @@ mod specref;
 mod rt;
 mod c01;
 mod c02;
+mod c03;
 mod c08;
 mod c09;
 
@@ -45,5 +46,5 @@ fn main() {
       }
     };
   }
-  dispatch!("C01" => c01, "C02" => c02, "C08" => c08, "C09" => c09);
+  dispatch!("C01" => c01, "C02" => c02, "C03" => c03, "C08" => c08, "C09" => c09);
 }
